@@ -107,6 +107,7 @@ func (s *Sim) runTX(res *Result, horizon time.Duration) {
 				go func() {
 					for oi, op := range ops {
 						gates.wait(ti, oi)
+						simrt.Resume(fmt.Sprintf("harness/txgate:%02d", ti))
 						ch := fmt.Sprintf("txt:%d", ti)
 						w.Log(ch, "invoke", nil, op.Op, int64(oi))
 						switch op.Op {
@@ -217,7 +218,7 @@ func (s *Sim) runThreads(tx *TXPlan, f func(ch string, op TXOp) string) {
 				ch := fmt.Sprintf("txt:%d", ti)
 				site := fmt.Sprintf("harness/txthread:%02d", ti)
 				for oi, op := range ops {
-					simrt.YieldAlways(site)
+					simrt.Resume(site)
 					w.Log(ch, "invoke", nil, fmt.Sprintf("%s %d %d", op.Op, op.Key, op.Val), int64(oi))
 					r := f(ch, op)
 					w.Log(ch, "return", nil, r, int64(oi))
